@@ -1,4 +1,5 @@
 import UtilModel.Core.Driver
+import UtilModel.Core.DriverH
 import UtilModel.Promise.Model
 import UtilModel.Promise.Monitors
 /-! Development driver for this component only: `lake env lean --run UtilModel/Promise/TestDriver.lean promise < hist` -/
@@ -6,5 +7,5 @@ open UtilModel
 
 def main (args : List String) : IO UInt32 :=
   driverMain [
-    mkEntry "promise" Promise.model Promise.Obs.parse Promise.promiseMons (cap := 2000)
+    mkEntryH "promise" Promise.model Promise.Obs.parse Promise.promiseMons
   ] args
